@@ -900,7 +900,7 @@ class Explorer:
                             return  # unreachable otherwise
             if btag:
                 ty0 = rec['locals'][sloc][0] if sloc is not None else ''
-                events = events | {('branch', btag, 1 if (ty0 == 'bool' and listed == {0}) else 'other')}
+                events = events | {('branch', btag, 1, (0,)) if (ty0 == 'bool' and listed == {0}) else ('branch', btag, 'other', tuple(sorted(listed)))}
             stack.append((otherwise, 0, e2, events, dsrc, visits))
         elif k == 'call':
             self.call(rec, t, env, events, dsrc, visits, stack, results, depth)
